@@ -32,17 +32,19 @@ def Start (W : World) : Prop := ∃ caps t0, W = World.start caps t0
 
 theorem reach_eq_run (cfg : Cfg) (W : World) (h : List Step) : Spec.reach (deployment cfg) W h = run cfg W h := rfl
 
-/-- the tree's shape: entries age from the call token, the hit branch keeps the declared-type check -/
-def Repaired (sh : Shape) : Prop := sh.missAnchor = .created ∧ sh.hitChecksType = true
+/-- the tree's shape: entries age from the call token, the hit branch keeps the method check (what the call token's
+    AAD enforces on a miss) and the declared-type check -/
+def Repaired (sh : Shape) : Prop := sh.missAnchor = .created ∧ sh.hitChecksType = true ∧ sh.hitChecksMethod = true
 
 /-- the control flow the model transliterates is the control flow extraction recognised in the source -/
 theorem shapes_recognised :
     Gen.C14.getRecognised = true ∧ Gen.C14.putRecognised = true ∧ Gen.C14.putKeysRecognised = true ∧
-    Gen.C14.resolutionOrderRecognised = true ∧ Gen.C14.missPathRecognised = true ∧ Gen.C14.aadSameTail = true := by
+    Gen.C14.resolutionOrderRecognised = true ∧ Gen.C14.missPathRecognised = true ∧ Gen.C14.aadSameTail = true ∧
+    Gen.C14.callBindsMethod = true ∧ Gen.C14.tokenRejectionsUniform = true := by
   decide
 
 /-- the source tree under test has the repaired shape -/
-theorem tree_repaired : Repaired Gen.C14.shape := ⟨by decide, by decide⟩
+theorem tree_repaired : Repaired Gen.C14.shape := ⟨by decide, by decide, by decide⟩
 
 /-- **cache invariant**: after any history every entry `(cid, ident) ↦ rc` of every worker's cache holds the call minted
     under `cid`, and `ident` is the identity key of that call's owner -/
@@ -105,7 +107,7 @@ theorem transparent_model (cfg : Cfg) (htps : 0 < cfg.tps) (hsh : Repaired cfg.s
     (serveCont cfg (run cfg (World.start caps t0) h) w rq).2
       = (serveCont cfg (run cfg (World.start caps t0) h).emptied w rq).2 := by
   rw [cold_emptied]
-  exact warm_cold (run_inv htps h _ (start_inv cfg caps t0)) w rq hecho (hitSafe_of_repaired w rq hsh.1 hsh.2)
+  exact warm_cold (run_inv htps h _ (start_inv cfg caps t0)) w rq hecho (hitSafe_of_repaired w rq hsh.1 hsh.2.1 hsh.2.2)
 
 /-- transparency for any configuration of the repaired shape -/
 theorem transparent_of_repaired (cfg : Cfg) (htps : 0 < cfg.tps) (hsh : Repaired cfg.shape) :
@@ -122,15 +124,17 @@ theorem C14_transparent (cfg : Cfg) (htps : 0 < cfg.tps) (hsh : cfg.shape = Gen.
   transparent_of_repaired cfg htps (hsh ▸ tree_repaired)
 
 /-- **C14, partial (any shape, also the pinned one)**: the outcome is the cold outcome for every conforming request whose
-    call token is still valid at the time of the request and whose call-state type the method declares (or the shape
-    checks it on a hit).  Excluded: requests arriving after `now − created_at > token_ttl`, and cross-method requests. -/
+    call token is still valid at the time of the request, that arrive at the minting method's endpoint (or the shape
+    checks the method on a hit) and whose call-state type the method declares (or the shape checks it on a hit).
+    Excluded: requests arriving after `now − created_at > token_ttl`, and cross-method requests. -/
 theorem C14_transparent_partial (cfg : Cfg) (htps : 0 < cfg.tps) (caps : List Nat) (t0 : Nat) (h : List Step)
     (w : Nat) (rq : Req) :
     let W := run cfg (World.start caps t0) h
     Echo W rq →
     (∀ c cl, openCursor cfg W rq = .ok c → W.calls[c.cid]? = some cl →
       Gen.C14.tokenExpired cfg.ttl (W.nowS cfg) cl.created = false ∧
-      (cfg.shape.hitChecksType = true ∨ typeOk cfg rq.method cl.rc = true)) →
+      (cfg.shape.hitChecksType = true ∨ typeOk cfg rq.method cl.rc = true) ∧
+      (cfg.shape.hitChecksMethod = true ∨ cl.rc.method = rq.method)) →
     (serveCont cfg W w rq).2 = (serveCont cfg W.emptied w rq).2 := by
   intro W hecho hfresh
   rw [cold_emptied]
@@ -176,7 +180,7 @@ theorem nonconforming_model (cfg : Cfg) (hrep : Repaired cfg.shape) (W : World) 
       have hopen' : openCursor cfg W (echoed W rq) = .ok c := by
         rw [openCursor_congr cfg W rq (echoed W rq) f1 f3]; exact hopen
       exact hit_cold hinv w (echoed W rq) (echoed_echo W rq)
-        (hitSafe_of_repaired w (echoed W rq) hrep.1 hrep.2) c rc cache1 hopen' (by rw [f1]; exact hg)
+        (hitSafe_of_repaired w (echoed W rq) hrep.1 hrep.2.1 hrep.2.2) c rc cache1 hopen' (by rw [f1]; exact hg)
 
 /-- **C14, requests that do not echo the call token** (repaired shape): answered as a cold worker answers them, or as a
     cold worker answers the conforming request — the cache never invents a third outcome -/
@@ -193,7 +197,7 @@ def exCfg : Cfg :=
   { shape := Gen.C14.shape, ttl := 10, tps := 4, declares := fun m t => m == t, decodes := fun m m' => m == m' }
 def alice : Ident := .user "d".toList "alice".toList
 def exHist : List Step :=
-  [.init 0 alice 0 ⟨7, some 0⟩, .tick 36, .init 0 .anon 0 ⟨8, some 0⟩,
+  [.init 0 alice 0 7 (some 0), .tick 36, .init 0 .anon 0 8 (some 0),
    .cont 1 ⟨alice, 0, .issued 0, .issued 0, false⟩, .tick 3]
 def exReq : Req := ⟨alice, 0, .issued 2, .issued 0, false⟩
 
@@ -207,9 +211,9 @@ example : Echo (run exCfg (World.start [1, 2, 0] 0) exHist) exReq := by
   subst this; rfl
 
 example : (serveCont exCfg (run exCfg (World.start [1, 2, 0] 0) exHist) 1 exReq).2
-    = .served 0 ⟨7, some 0⟩ ⟨0, alice, 9, 1, 0⟩ false := by decide +kernel
+    = .served 0 ⟨7, some 0, 0⟩ ⟨0, alice, 9, 1, 0⟩ false := by decide +kernel
 example : (serveCont exCfg (run exCfg (World.start [1, 2, 0] 0) exHist) 0 exReq).2
-    = .served 0 ⟨7, some 0⟩ ⟨0, alice, 9, 1, 0⟩ false := by decide +kernel
+    = .served 0 ⟨7, some 0, 0⟩ ⟨0, alice, 9, 1, 0⟩ false := by decide +kernel
 example : ((run exCfg (World.start [1, 2, 0] 0) exHist).caches.map (·.entries.length)) = [1, 1, 0] := by decide +kernel
 
 end VgiVerif.C14
